@@ -41,39 +41,39 @@ def putAll (vs : List ClauseVal) (c : Clauses) : Clauses := vs.foldl (fun c v =>
 /-! ### trees modulo locations (permuting clauses moves every token) -/
 
 mutual
-def PExpr.eraseLoc : PExpr → PExpr
+def PExpr.noLoc : PExpr → PExpr
   | .value _ v => .value ⟨0, 0⟩ v
   | .column _ n => .column ⟨0, 0⟩ n
   | .wildcard _ => .wildcard ⟨0, 0⟩
-  | .tuple _ vs => .tuple ⟨0, 0⟩ (PExpr.eraseLocList vs)
-  | .binop _ o a b => .binop ⟨0, 0⟩ o a.eraseLoc b.eraseLoc
-  | .boolop _ o a b => .boolop ⟨0, 0⟩ o a.eraseLoc b.eraseLoc
-  | .unop _ o e => .unop ⟨0, 0⟩ o e.eraseLoc
-  | .invert _ e => .invert ⟨0, 0⟩ e.eraseLoc
-  | .nullcmp _ n a b => .nullcmp ⟨0, 0⟩ n a.eraseLoc b.eraseLoc
-  | .inList _ n e vs => .inList ⟨0, 0⟩ n e.eraseLoc (PExpr.eraseLocList vs)
-  | .call _ n args d => .call ⟨0, 0⟩ n (PExpr.eraseLocList args) d
-  | .index _ a i => .index ⟨0, 0⟩ a.eraseLoc i.eraseLoc
-  | .cast _ e t => .cast ⟨0, 0⟩ e.eraseLoc t
-  | .case _ cs els => .case ⟨0, 0⟩ (PExpr.eraseLocClauses cs) els.eraseLoc
-def PExpr.eraseLocList : List PExpr → List PExpr
+  | .tuple _ vs => .tuple ⟨0, 0⟩ (PExpr.noLocList vs)
+  | .binop _ o a b => .binop ⟨0, 0⟩ o a.noLoc b.noLoc
+  | .boolop _ o a b => .boolop ⟨0, 0⟩ o a.noLoc b.noLoc
+  | .unop _ o e => .unop ⟨0, 0⟩ o e.noLoc
+  | .invert _ e => .invert ⟨0, 0⟩ e.noLoc
+  | .nullcmp _ n a b => .nullcmp ⟨0, 0⟩ n a.noLoc b.noLoc
+  | .inList _ n e vs => .inList ⟨0, 0⟩ n e.noLoc (PExpr.noLocList vs)
+  | .call _ n args d => .call ⟨0, 0⟩ n (PExpr.noLocList args) d
+  | .index _ a i => .index ⟨0, 0⟩ a.noLoc i.noLoc
+  | .cast _ e t => .cast ⟨0, 0⟩ e.noLoc t
+  | .case _ cs els => .case ⟨0, 0⟩ (PExpr.noLocClauses cs) els.noLoc
+def PExpr.noLocList : List PExpr → List PExpr
   | [] => []
-  | x :: xs => x.eraseLoc :: PExpr.eraseLocList xs
-def PExpr.eraseLocClauses : List (PExpr × PExpr) → List (PExpr × PExpr)
+  | x :: xs => x.noLoc :: PExpr.noLocList xs
+def PExpr.noLocClauses : List (PExpr × PExpr) → List (PExpr × PExpr)
   | [] => []
-  | (c, r) :: xs => (c.eraseLoc, r.eraseLoc) :: PExpr.eraseLocClauses xs
+  | (c, r) :: xs => (c.noLoc, r.noLoc) :: PExpr.noLocClauses xs
 end
 
 def ClauseVal.erase : ClauseVal → ClauseVal
-  | .filter e => .filter e.eraseLoc
-  | .groupBy ks => .groupBy (PExpr.eraseLocList ks)
-  | .having e => .having e.eraseLoc
+  | .filter e => .filter e.noLoc
+  | .groupBy ks => .groupBy (PExpr.noLocList ks)
+  | .having e => .having e.noLoc
   | .join j => .join j
   | .limit n => .limit n
 
 def Clauses.erase (c : Clauses) : Clauses :=
-  { filter := c.filter.map PExpr.eraseLoc, groupBy := c.groupBy.map PExpr.eraseLocList,
-    having := c.having.map PExpr.eraseLoc, join := c.join, limit := c.limit }
+  { filter := c.filter.map PExpr.noLoc, groupBy := c.groupBy.map PExpr.noLocList,
+    having := c.having.map PExpr.noLoc, join := c.join, limit := c.limit }
 
 /-- the same clauses up to locations -/
 def Clauses.Same (c d : Clauses) : Prop := c.erase = d.erase
